@@ -108,6 +108,7 @@ class Ctx:
     def _feasible(self, lit):
         s = z3.Solver()
         s.set('rlimit', self.rlimit)
+        s.set('timeout', 60_000)
         s.add(*self.assumptions)
         s.add(*self.decisions)
         s.add(lit)
@@ -180,29 +181,96 @@ def lift(o):
     return None
 
 
+def _term_vars(t):
+    """uninterpreted constants of a term (iterative DAG walk: terms get deep)."""
+    seen, out, stack = set(), [], [t]
+    while stack:
+        e = stack.pop()
+        i = e.get_id()
+        if i in seen:
+            continue
+        seen.add(i)
+        if z3.is_const(e):
+            if e.decl().kind() == z3.Z3_OP_UNINTERPRETED:
+                out.append(e)
+            continue
+        stack.extend(e.children())
+    return out
+
+
+def _point_value(name):
+    h = 0
+    for ch in name:
+        h = (h * 1000003 + ord(ch)) % 2147483629
+    return z3.Q((h % 97) - 48 or 5, (h // 97) % 7 + 2)
+
+
+def fingerprint(t):
+    """value of a polynomial term at a fixed pseudo-random rational point (Schwartz-Zippel key); None if not numeric."""
+    try:
+        vs = _term_vars(t)
+        v = z3.simplify(z3.substitute(t, *[(x, _point_value(x.decl().name())) for x in vs])) if vs else z3.simplify(t)
+        if z3.is_rational_value(v):
+            return (v.numerator_as_long(), v.denominator_as_long())
+    except Exception:
+        pass
+    return None
+
+
+def _recip(b):
+    """
+    1/b as a fresh variable q with q*b == 1, b != 0 recorded (keeps every query polynomial).
+    Denominators that agree at a pseudo-random point are *conjectured* equal and share one
+    reciprocal variable; the conjecture b == b0 is recorded as a lemma that the solver must
+    discharge (core._decide), so sharing is sound.  This lets two separately generated programs
+    that divide by the same polynomial be compared without non-linear reasoning about q's.
+    """
+    c = cur()
+    fp = fingerprint(b)
+    table = c.__dict__.setdefault('_recips', {})
+    if fp is not None and fp in table:
+        b0, q0 = table[fp]
+        if not b0.eq(b):
+            c.__dict__.setdefault('lemmas', []).append((b, b0))
+        return q0
+    q = c.fresh('q')
+    c.denominators.append(b)
+    c.assume(b != 0, 'denominator != 0')
+    c.assume(q * b == 1)
+    if fp is not None:
+        table[fp] = (b, q)
+    return q
+
+
 def _div(a, b):
-    """a / b with a fresh quotient variable: q*b == a, b != 0 (keeps queries polynomial)."""
     bs = z3.simplify(b)
     if z3.is_rational_value(bs):
         if bs.numerator_as_long() == 0:
             raise ZeroDivisionError('division of a symbolic value by constant zero')
         return a * z3.Q(bs.denominator_as_long(), bs.numerator_as_long())
-    c = cur()
-    q = c.fresh('q')
-    c.denominators.append(b)
-    c.assume(b != 0, 'denominator != 0')
-    c.assume(q * b == a)
-    return q
+    q = _recip(b)
+    a1 = z3.simplify(a) if z3.is_rational_value(a) else a
+    if z3.is_rational_value(a1) and a1.numerator_as_long() == 1 and a1.denominator_as_long() == 1:
+        return q
+    return a * q
 
 
 def _sqrt(x):
-    xs = z3.simplify(x)
     c = cur()
+    fp = fingerprint(x)
+    table = c.__dict__.setdefault('_roots', {})
+    if fp is not None and fp in table:
+        x0, y0 = table[fp]
+        if not x0.eq(x):
+            c.__dict__.setdefault('lemmas', []).append((x, x0))
+        return y0
     y = c.fresh('r')
     c.radicands.append(x)
     c.assume(x >= 0, 'radicand >= 0')
     c.assume(y >= 0)
     c.assume(y * y == x)
+    if fp is not None:
+        table[fp] = (x, y)
     return y
 
 
@@ -278,6 +346,16 @@ class SV:
                 return s ** (k // 2)
             root = s.__class__(_sqrt(s.t))
             return root ** k if k >= 0 else 1 / (root ** (-k))
+        if isinstance(n, (float, Fraction)):
+            # any other real exponent: an unconstrained fresh value per (base term, exponent).
+            # Nothing can be PROVED about it, but differing uses show up as sat and are replayed.
+            c = cur()
+            key = (s.t.get_id(), float(n))
+            cache = c.__dict__.setdefault('_pow_cache', {})
+            if key not in cache:
+                cache[key] = c.fresh('p')
+                c.notes.append(f'uninterpreted power **{n}')
+            return s.__class__(cache[key])
         raise ValueBranch(f'unsupported power {n!r} of a symbolic value')
 
     def __abs__(s):
